@@ -19,7 +19,8 @@ def main():
         d = os.path.join(VERIF, "seeded", n)
         meta = json.load(open(os.path.join(d, "meta.json")))
         prop = meta["property"]
-        r = subprocess.run(["/venv/bin/python", "-m", "mc.seedtool", d, n, prop] + RELATED[prop], capture_output=True, text=True, env=dict(os.environ, PYTHONPATH=VERIF), cwd=VERIF)
+        checks = sorted(set([prop] + list(meta.get("detected_by") or []))) if os.environ.get("REVERIFY_NARROW") else RELATED[prop]
+        r = subprocess.run(["/venv/bin/python", "-m", "mc.seedtool", d, n, prop] + checks, capture_output=True, text=True, env=dict(os.environ, PYTHONPATH=VERIF), cwd=VERIF)
         out = [l for l in r.stdout.splitlines() if "WARNING conda" not in l]
         print("\n".join(l[:200] for l in out[:6]), flush=True)
 
